@@ -320,6 +320,20 @@ def small_universe(level=1):
             res.append(S(pre + [VA(copy.deepcopy(inner), 2), U(8)]))
             res.append(S(pre + [copy.deepcopy(inner), U(8)], sealed=False, slack=3))
             res.append(UN([copy.deepcopy(inner), U(7, False), VA(B(), 9)]))
+    # arrays that span several bytes at unaligned offsets: bit-packed booleans, byte arrays and standard-width ("zero-cost" on little-endian
+    # targets) arrays go through bulk bit copies whose partial first/last bytes and zero extension are the delicate part
+    for off in (0, 1, 3, 5):
+        pre = [U(off, False)] if off else []
+        res.append(S(pre + [FA(B(), 11), U(2)]))
+        res.append(S(pre + [VA(B(), 17), I(3)]))
+        res.append(S(pre + [FA(U(8), 3), B()]))
+        res.append(S(pre + [VA(I(8), 4), U(5)]))
+        res.append(S(pre + [FA(I(16), 2), B()]))
+        res.append(S(pre + [VA(U(32, False), 2)]))
+        res.append(S(pre + [VA(F(32), 2), B()]))
+        res.append(S(pre + [FA(F(64), 1), U(3)]))
+        res.append(S(pre + [VA(U(4), 5), B()]))
+        res.append(S(pre + [FA(I(3), 7)]))
     res.append(S([V(3), B(), V(4), U(16), V(8)]))
     res.append(S([]))
     res.append(S([VA(U(8), 255)]))
